@@ -282,7 +282,7 @@ def r_vcv(rng, shape='3x3'):
         m = [[m[i][j] if j <= i else 0.0 for j in range(3)] for i in range(3)]
     elif k < 0.14:    # diagonal
         m = [[m[i][j] if j == i else 0.0 for j in range(3)] for i in range(3)]
-    elif k < 0.16:
+    elif k < 0.19:
         m = [[0.0] * 3 for _ in range(3)]
     return _array_kind(rng, {'$array': m})
 
